@@ -748,11 +748,6 @@ Proof.
   apply (starts_ws_prefix _ b). rewrite <- E. apply starts_ws_lstrip.
 Qed.
 
-Definition right_marker_honoured (dt : wc) (toks : list ftok) : Prop :=
-  forall pre l r rest,
-    toks = pre ++ FM l r :: rest -> resolve dt r = Minus ->
-    starts_ws (run_text dt r rest None) = false.
-
 Lemma no_adjacent_content_suffix pre x :
   no_adjacent_content (pre ++ x) = true -> no_adjacent_content x = true.
 Proof.
@@ -800,11 +795,14 @@ Proof. vm_compute. auto. Qed.
     suppression and nothing with it. *)
 Example suppression_only_ws_nonvacuous :
   let t := TBlock (KIf 0) Default Default (TContent [32;10;32]%N TNil) SNil Default Default TNil in
-  exists a, parse {| default_trim := Plus; suppress := true |} t = Ok a
-    /\ blank_nodes a = true
-    /\ fst (render_nodes {| default_trim := Plus; suppress := false |} ex_data a (d_str ex_data)) = [32;10;32]%N
-    /\ fst (render_nodes {| default_trim := Plus; suppress := true |} ex_data a (d_str ex_data)) = [].
-Proof. eexists. vm_compute. auto. Qed.
+  match parse {| default_trim := Plus; suppress := true |} t with
+  | Ok a =>
+      blank_nodes a = true
+      /\ fst (render_nodes {| default_trim := Plus; suppress := false |} ex_data a (d_str ex_data)) = [32;10;32]%N
+      /\ fst (render_nodes {| default_trim := Plus; suppress := true |} ex_data a (d_str ex_data)) = []
+  | _ => False
+  end.
+Proof. vm_compute. auto. Qed.
 
 (** x {%+ for i in a0 +%} {{ v1 }}\n{% endfor %}{% raw %} r {% endraw %} *)
 Example no_trim_is_verbatim_nonvacuous :
@@ -826,9 +824,13 @@ Example carry_is_adjacent_nonvacuous :
              (SCons (GWhen [1%nat]) Tilde Plus (TContent [32;97;32]%N TNil)
              (SCons GElse Default Minus (TContent [32;98;32]%N TNil) SNil))
              Minus Tilde (TContent [32;122]%N TNil) in
-  exists a, parse {| default_trim := Plus; suppress := true |} t = Ok a
-    /\ content_pairs a = [([32;97;32]%N, Plus, Default); ([32;98;32]%N, Minus, Minus); ([32;122]%N, Tilde, Default)].
-Proof. eexists. vm_compute. auto. Qed.
+  wf t = true
+  /\ match parse {| default_trim := Plus; suppress := true |} t with
+     | Ok a => content_pairs a =
+               [([32;97;32]%N, Plus, Default); ([32;98;32]%N, Minus, Minus); ([32;122]%N, Tilde, Default)]
+     | _ => False
+     end.
+Proof. vm_compute. auto. Qed.
 
 Example right_marker_partial_nonvacuous :
   let toks := [FC [97]%N; FM Default Minus; FC [32;10;98]%N; FM Minus Default] in
